@@ -94,6 +94,32 @@ def Span.iter (s : Span) : R (Option (List Period)) :=
     | some l => pure (some (l.map (fun x => ⟨p.freq, x⟩)))
   | _, _ => pure none
 
+/-! Slices -/
+/-- `slice(start, stop, step).indices(n)` (CPython `PySlice_AdjustIndices` after `None` defaults); `none` = ValueError for step 0 -/
+def sliceIndices (n : Nat) (start stop step : Option Int) : Option (Int × Int × Int) :=
+  let st := step.getD 1
+  if st = 0 then none
+  else
+    let lower : Int := if st < 0 then -1 else 0
+    let upper : Int := if st < 0 then (n : Int) - 1 else n
+    let adj : Int → Int := fun s => if s < 0 then max (s + n) lower else min s upper
+    let a := match start with | none => if st < 0 then upper else lower | some s => adj s
+    let b := match stop with | none => if st < 0 then lower else upper | some s => adj s
+    some (a, b, st)
+
+/-- `span[start:stop:step]`: the code keeps the elements whose POSITION lies in `range(*slice.indices(len))`, in span order
+(so a negative slice step does not reverse the result). `none` when the span needs resolving. -/
+def Span.getSlice (s : Span) (start stop step : Option Int) : R (Option (List Period)) := do
+  match ← s.iter with
+  | none => throw .badInput     -- len() of an unresolved span is None: `indices(None)` raises
+  | some l =>
+    match sliceIndices l.length start stop step with
+    | none => throw .badInput
+    | some (a, b, st) =>
+      let idx := pyRange a b st
+      pure (some ((l.zipIdx.filter (fun (_, i) => idx.contains (i : Int))).map (·.1)))
+
+
 /-! In-place mutations -/
 def Span.reverse (s : Span) : Span := ⟨s.stop, s.start, -s.step⟩
 def Span.shiftStart (s : Span) (k : Int) : Span := { s with start := s.start.add k }
